@@ -14,7 +14,7 @@ name: get_pword
 define: U_PWORD
 src: strings.c
 enforce: spiftool_get_pword
-backend: cadical
+backend: kissat,cadical
 loops: 1
 */
 /*@unit
@@ -22,7 +22,7 @@ name: num_words
 define: U_NUMWORDS
 src: strings.c
 enforce: spiftool_num_words
-backend: cadical
+backend: kissat,cadical
 loops: 1
 */
 /*@unit
@@ -30,7 +30,7 @@ name: get_word
 define: U_GETWORD, VERIF_SPLIT_REALLOC
 src: strings.c
 enforce: spiftool_get_word
-backend: cadical
+backend: kissat,cadical
 loops: 1
 */
 #include "vprelude.h"
